@@ -23,7 +23,8 @@ REL = 1e-9
 CLAUSE_ORDER = ["raised", "nonfinite", "taxa", "raw", "standardised", "standardised:constant", "standardised:constant:inexact_mean",
                 "stat:tmax", "stat:tmin", "stat:trange", "stat:tmean", "stat:targmax", "stat:targmin",
                 "stat:tstd", "stat:tvar", "stat:tstd:constant", "stat:tvar:constant"]
-# clauses that cannot be the root cause of a later failure (a statistic of one matrix state)
+# clauses that cannot be the root cause of a later failure (a statistic of one matrix state; the D9 class,
+# fixed by 94b833ce — ranked last so that a regression of it cannot mask another failure)
 STATELESS = {"stat:tstd:constant", "stat:tvar:constant"}
 STATS = ["tmax", "tmin", "tmean", "trange", "tstd", "tvar"]
 
@@ -240,7 +241,7 @@ class C15(Prop):
         nb = [[10, 70], [20, 80]]
         h = lambda **kw: dict({"kind": "history", "cls": "BV", "generic": False}, **kw)
         return [
-            # D9: constant trait
+            # D9 (fixed in /repo by 94b833ce): constant trait; kept as regression cases
             h(ntrait=3, rows=A, taxa=[0, 1, 2], ops=[]),
             h(ntrait=1, rows=[[5], [5]], taxa=[0, 1], ops=[]),
             h(ntrait=1, rows=[[3]], taxa=[0], ops=[], cls="EBV"),
@@ -334,7 +335,7 @@ class C15(Prop):
     def _history(self, rng, tier):
         r = rng.random()
         profile = "good" if r < 0.68 else ("inherited" if r < 0.90 else "malformed")
-        quiet = rng.random() < 0.7      # no constant trait can arise: keeps the case clear of D9
+        quiet = rng.random() < 0.7      # no constant trait can arise (kept from the time D9 was open: constant traits are the other 30 %)
         n = rng.choice([2, 3, 3, 4, 4, 5, 6, 8, 12]) if quiet else rng.choice([1, 2, 2, 3, 3, 4, 4, 5, 6, 8, 12])
         if rng.random() < (0.03 if tier == "quick" else 0.05):
             n = rng.choice([49, 98, 103])
@@ -798,6 +799,12 @@ class C15(Prop):
         def tvar_is_scale(self, unscale=False):
             return self._scale if unscale else self._mat.var(axis=self.taxa_axis)
 
+        def tstd_prerepair(self, unscale=False):       # D9 as it was before 94b833ce
+            return self._scale if unscale else self._mat.std(axis=self.taxa_axis)
+
+        def tvar_prerepair(self, unscale=False):
+            return self._scale ** 2 if unscale else self._mat.var(axis=self.taxa_axis)
+
         def targmax_last(self):
             m = self._mat
             return m.shape[0] - 1 - m[::-1].argmax(axis=self.taxa_axis)
@@ -853,6 +860,8 @@ class C15(Prop):
             ("trange_adds_location", lambda: patch(BV, "trange", trange_unscaled_plus_location)),
             ("tmean_of_stored_values", lambda: patch(BV, "tmean", tmean_stored)),
             ("tvar_returns_scale", lambda: patch(BV, "tvar", tvar_is_scale)),
+            ("tstd_returns_stored_scale_D9", lambda: patch(BV, "tstd", tstd_prerepair)),
+            ("tvar_returns_stored_scale_squared_D9", lambda: patch(BV, "tvar", tvar_prerepair)),
             ("targmax_last_occurrence", lambda: patch(BV, "targmax", targmax_last)),
             ("targmin_is_argmax", lambda: patch(BV, "targmin", targmin_is_argmax)),
             # mechanism 4: DenseScaledMatrix
@@ -864,36 +873,3 @@ class C15(Prop):
 
 
 PROP = C15()
-
-
-def strict_selftest(seed=0, n=None):
-    """Stricter than core's self-test: a mutant counts as killed only if it makes a case fail that
-    passes on the unpatched code, or fails with a signature no KNOWN_FINDINGS line matches."""
-    import random
-    from .. import core, findings
-    prop = PROP
-    known = findings.load(prop.PID)
-    base = list(prop.corpus()) + list(prop.generate(random.Random(seed + 5), n or prop.N_QUICK, "quick"))
-    ref = core.evaluate(prop, base)
-    ok0 = [v["spec"] and v["corr"] for v in ref]
-    res = {}
-    for name, ctx in prop.mutants():
-        with ctx():
-            vs = core.evaluate(prop, base)
-        new = 0
-        unmatched = 0
-        for c, v, was_ok in zip(base, vs, ok0):
-            bad = (not v["spec"]) or (not v["corr"])
-            if bad and was_ok:
-                new += 1
-            if (not v["spec"]) and findings.match(known, prop.signature(c, v["obs"], v)) is None:
-                unmatched += 1
-        res[name] = {"newly_failing": new, "spec_false_unmatched": unmatched}
-    return res
-
-
-if __name__ == "__main__":
-    import json
-    r = strict_selftest()
-    print(json.dumps(r, indent=1))
-    print("SURVIVORS:", [k for k, v in r.items() if not (v["newly_failing"] and v["spec_false_unmatched"])])
